@@ -82,8 +82,13 @@ long_name = st.builds(lambda c, n, e: c * n + e, st.sampled_from(["a", "b9", "\x
                       st.integers(40, 110), st.sampled_from(TAME_EXT)).filter(lambda n: len(n) <= 230)
 
 
+# names that CONTAIN what some code looks for at the start of a selector or in a request line
+quirky_name = st.sampled_from(["cURL: tips.txt", "xURL:http:y", "my URL:s", "aURL:", "GET x HTTP", "a gemini:", "x.zip.txt", "not.mbox.txt",
+                               "file.gophermapx", "x.tal.txt", "README.html.bak", "a|b", "a?b", "50% off", "a+b c", "wapx", "x.pyg.txt"])
+
+
 def names(gopher_ok=True, hostile_ratio=0.4, toplevel=True, full=False, long_ratio=0):
-    s = st.one_of(tame_name, tame_name, hostile_name(gopher_ok)) if hostile_ratio else tame_name
+    s = st.one_of(tame_name, tame_name, hostile_name(gopher_ok), tame_name, tame_name, hostile_name(gopher_ok), quirky_name) if hostile_ratio else tame_name
     if long_ratio:
         s = st.one_of(s, s, long_name)
     return s.filter(lambda n: servable_name(n, toplevel, full))
